@@ -487,8 +487,8 @@ func c19Seq(tier string, shard, n int, deadline time.Time, res *Result) {
 	for _, cfg := range bufConfigs(tier) {
 		ops := bufOps(cfg.cap)
 		d := depth
-		if cfg.cap >= 1024 && d > 4 {
-			d = 4
+		if cfg.cap >= 1024 {
+			d = depth - 1 // kilobyte-sized operations: one level less (every defect seen so far needs <= 3 operations there)
 		}
 		seq := make([]bufOp, 0, d)
 		var rec func()
@@ -541,7 +541,7 @@ func init() {
 		Seq: c05Seq, BudgetQuick: 60, BudgetThorough: 600,
 		Assumptions: []string{"the slot function depends only on brace positions and a length-uniform CRC recurrence over a 256-entry table; both are covered exhaustively"}})
 	register(&Check{ID: "C19", Level: "model_checking",
-		Rule: "every operation sequence up to length 4 (thorough 5) over {Write k, Writev(k1,k2), Read k, Peek k / all, Discard k, Reset, WriteByte, ReadByte, Bytes, ReadFrom k, WriteTo(limit k / unlimited)} with k in {1,3,cap-1,cap,cap+1,2cap+1} on ring.Buffer (initial capacity 0, 4, 8; thorough also 1024, 4096), linkedlist.Buffer, elastic.RingBuffer and elastic.Buffer (static limit 8, 1024; thorough also 4, 4096); payload bytes are a running counter; oracle: a []byte queue, compared after every operation (returned/peeked bytes, discarded counts, Buffered, IsEmpty) and by a final drain; states = sequences, transitions = operations executed",
+		Rule: "every operation sequence up to length 4 (thorough 5; one less for the 1 KiB / 4 KiB configurations) over {Write k, Writev(k1,k2), Read k, Peek k / all, Discard k, Reset, WriteByte, ReadByte, Bytes, ReadFrom k, WriteTo(limit k / unlimited)} with k in {1,3,cap-1,cap,cap+1,2cap+1} on ring.Buffer (initial capacity 0, 4, 8, 4096; thorough also 1024), linkedlist.Buffer, elastic.RingBuffer and elastic.Buffer (static limit 8, 1024; thorough also 4, 4096); payload bytes are a running counter; oracle: a []byte queue, compared after every operation (returned/peeked bytes, discarded counts, Buffered, IsEmpty) and by a final drain; states = sequences, transitions = operations executed",
 		Seq: c19Seq, BudgetQuick: 90, BudgetThorough: 1200,
 		Assumptions: []string{"ReadFrom is driven by readers that return data and EOF in separate calls; WriteTo by writers that return short counts without an error (non-blocking socket behaviour) - the property statement does not cover readers/writers that fail"}})
 	SeqReplay["C05"] = func(in string) (string, bool) {
